@@ -62,21 +62,68 @@ pub enum Loaded {
     Ok(Rule),
     Err(String),
     Panic,
+    Loop,
+}
+
+/// Loading runs on a worker thread under a watchdog: a load that does not return within
+/// LOAD_TIMEOUT is reported as `Loop` (C04: loading terminates) and the worker is abandoned.
+const LOAD_TIMEOUT: std::time::Duration = std::time::Duration::from_secs(5);
+static LOOPS: std::sync::atomic::AtomicUsize = std::sync::atomic::AtomicUsize::new(0);
+/// number of calls abandoned by the watchdog so far (each leaves a spinning worker behind)
+pub fn loops_seen() -> usize {
+    LOOPS.load(std::sync::atomic::Ordering::Relaxed)
+}
+
+fn watchdog<F>(f: F) -> Loaded
+where
+    F: FnOnce() -> tau_engine_result::R + Send + 'static,
+{
+    let (tx, rx) = std::sync::mpsc::channel();
+    std::thread::spawn(move || {
+        let r = guarded(f);
+        let _ = tx.send(r);
+    });
+    match rx.recv_timeout(LOAD_TIMEOUT) {
+        Ok(Ok(Ok(r))) => Loaded::Ok(r),
+        Ok(Ok(Err(e))) => Loaded::Err(e),
+        Ok(Err(())) => Loaded::Panic,
+        Err(_) => {
+            LOOPS.fetch_add(1, std::sync::atomic::Ordering::Relaxed);
+            Loaded::Loop
+        }
+    }
+}
+mod tau_engine_result {
+    pub type R = Result<tau_engine::Rule, String>;
+}
+
+/// run a textual-layer call under the same watchdog: "ok" | "err" | "panic" | "loop"
+pub fn timed<F>(f: F) -> &'static str
+where
+    F: FnOnce() -> bool + Send + 'static,
+{
+    let (tx, rx) = std::sync::mpsc::channel();
+    std::thread::spawn(move || {
+        let r = guarded(f);
+        let _ = tx.send(r);
+    });
+    match rx.recv_timeout(LOAD_TIMEOUT) {
+        Ok(Ok(true)) => "ok",
+        Ok(Ok(false)) => "err",
+        Ok(Err(())) => "panic",
+        Err(_) => {
+            LOOPS.fetch_add(1, std::sync::atomic::Ordering::Relaxed);
+            "loop"
+        }
+    }
 }
 
 pub fn load_text(text: &str) -> Loaded {
-    match guarded(|| Rule::from_str(text)) {
-        Ok(Ok(r)) => Loaded::Ok(r),
-        Ok(Err(e)) => Loaded::Err(format!("{}", e)),
-        Err(_) => Loaded::Panic,
-    }
+    let t = text.to_string();
+    watchdog(move || Rule::from_str(&t).map_err(|e| format!("{}", e)))
 }
 pub fn load_value(v: Y) -> Loaded {
-    match guarded(|| Rule::from_value(v)) {
-        Ok(Ok(r)) => Loaded::Ok(r),
-        Ok(Err(e)) => Loaded::Err(format!("{}", e)),
-        Err(_) => Loaded::Panic,
-    }
+    watchdog(move || Rule::from_value(v).map_err(|e| format!("{}", e)))
 }
 impl Loaded {
     pub fn tag(&self) -> &'static str {
@@ -84,6 +131,7 @@ impl Loaded {
             Loaded::Ok(_) => "ok",
             Loaded::Err(_) => "err",
             Loaded::Panic => "panic",
+            Loaded::Loop => "loop",
         }
     }
 }
@@ -345,6 +393,12 @@ fn detection_fingerprint(rule: &Rule) -> Result<String, String> {
     // in the serialised text is HashMap order and carries no meaning)
     let text = serde_yaml::to_string(rule).map_err(|e| e.to_string())?;
     let v: Y = serde_yaml::from_str(&text).map_err(|e| e.to_string())?;
+    value_fingerprint(&v)
+}
+
+/// canonical form of a rule given as a YAML value: detection (identifiers sorted by name, bodies in
+/// written order) and the two example lists
+fn value_fingerprint(v: &Y) -> Result<String, String> {
     fn canon(v: &Y, top: bool) -> String {
         match v {
             Y::Mapping(m) => {
@@ -412,7 +466,12 @@ pub fn run_life(case_in: &J, out: &mut Out, ic_build: bool) {
         case["docs"] = J::Array(docs);
     }
     let docs_j: Vec<J> = case["docs"].as_array().cloned().unwrap_or_default();
-    out.ev(json!({"ev":"case","c":case}));
+    // a second execution of a case that was already recorded (C12): no new case event, the objects
+    // are numbered after those of the first execution
+    let again_base = case_in["_again"]["base"].as_u64().map(|b| b as usize);
+    if again_base.is_none() {
+        out.ev(json!({"ev":"case","c":case}));
+    }
     // examples
     let mut tps: Vec<Y> = vec![];
     let mut tns: Vec<Y> = vec![];
@@ -437,8 +496,12 @@ pub fn run_life(case_in: &J, out: &mut Out, ic_build: bool) {
         }
     };
     let loaded = load_text(&rendered.text);
-    out.ev(json!({"ev":"load","via":"str","out":loaded.tag()}));
-    if plan["via_value"].as_bool().unwrap_or(false) {
+    if again_base.is_some() {
+        out.ev(json!({"ev":"load2","via":"again","out":loaded.tag()}));
+    } else {
+        out.ev(json!({"ev":"load","via":"str","out":loaded.tag()}));
+    }
+    if plan["via_value"].as_bool().unwrap_or(false) && again_base.is_none() {
         let l2 = load_value(rendered.value.clone());
         out.ev(json!({"ev":"load2","via":"value","out":l2.tag()}));
     }
@@ -470,7 +533,8 @@ pub fn run_life(case_in: &J, out: &mut Out, ic_build: bool) {
     let want_expr = plan["expr"].as_bool().unwrap_or(false);
     let repeat = plan["repeat"].as_u64().unwrap_or(0);
     let nthreads = plan["threads"].as_u64().unwrap_or(0) as usize;
-    let mut k = 0usize; // object counter
+    let mut k = again_base.unwrap_or(0); // object counter
+    let simple = again_base.is_some(); // second execution: optimise and match only
     for sw in sws.iter() {
         for rep in 0..=repeat {
             let obj = match optimise(&rule, sw) {
@@ -526,7 +590,7 @@ pub fn run_life(case_in: &J, out: &mut Out, ic_build: bool) {
                     }
                 }
             }
-            if nthreads > 0 {
+            if nthreads > 0 && !simple {
                 let maps: Vec<(usize, &serde_yaml::Mapping)> = docs
                     .iter()
                     .enumerate()
@@ -560,7 +624,7 @@ pub fn run_life(case_in: &J, out: &mut Out, ic_build: bool) {
                 }
             }
             // C16: match through a recording document and report every find() the engine made
-            if plan["find"].as_bool().unwrap_or(false) {
+            if plan["find"].as_bool().unwrap_or(false) && !simple {
                 for (i, dj) in docs_j.iter().enumerate() {
                     let log = RecLog(std::cell::RefCell::new(vec![]));
                     let root = match rec_build(dj, vec![], &log) {
@@ -579,7 +643,7 @@ pub fn run_life(case_in: &J, out: &mut Out, ic_build: bool) {
                 }
             }
             // alternative sources that must denote the same (C08 explicit forms, C17 permutations)
-            if let Some(alts) = case["alts"].as_array() {
+            if let Some(alts) = case["alts"].as_array().filter(|_| !simple) {
                 for (ai, alt) in alts.iter().enumerate() {
                     let loaded = match rule_yaml(alt, &[], &[], ic_build) {
                         Ok(r) => load_text(&r.text),
@@ -606,17 +670,22 @@ pub fn run_life(case_in: &J, out: &mut Out, ic_build: bool) {
                     }
                 }
             }
-            if plan["validate"].as_bool().unwrap_or(false) {
+            if plan["validate"].as_bool().unwrap_or(false) && !simple {
                 let (o, kind, msg) = validate(&obj);
                 let named: Vec<usize> = (0..n_ex).filter(|i| msg.contains(&format!("MARK{}Q", i))).collect();
                 out.ev(json!({"ev":"validate","obj":me,"out":o,"kind":kind,"named":named}));
             }
-            if plan["ser"].as_bool().unwrap_or(false) {
+            if plan["ser"].as_bool().unwrap_or(false) && !simple {
                 let text = guarded(|| serde_yaml::to_string(&obj));
                 match text {
                     Ok(Ok(text)) => {
                         out.ev(json!({"ev":"ser","obj":me,"out":"ok"}));
-                        let fp0 = detection_fingerprint(&rule).unwrap_or_else(|e| format!("err0:{}", e));
+                        // compared with the rule AS WRITTEN (the YAML value that was loaded), not with
+                        // what the loaded rule would serialise to
+                        let fp0 = serde_yaml::from_str::<Y>(&rendered.text)
+                            .map_err(|e| e.to_string())
+                            .and_then(|v| value_fingerprint(&v))
+                            .unwrap_or_else(|e| format!("err0:{}", e));
                         for via in ["str", "value"] {
                             let re = if via == "str" {
                                 load_text(&text)
